@@ -173,6 +173,18 @@ def _case(draw, tier):
         b = H.merge_nested_annotated(draw(widen(a)))
         c = H.merge_nested_annotated(draw(widen(b)))
         mode = 'chain'
+    if draw(st.integers(0, 7)) == 0:
+        # twin probe: the same shape around two unrelated classes that share module, qualified name and repr
+        # (typing.* spellings only: beartype's coercion of PEP 585/604 hints is keyed by repr - a listed C14 finding)
+        w = draw(st.sampled_from(['bare', 'optional', 'Tuple', 'List', 'Dict', 'Union']))
+        order = draw(st.permutations(['VTwinA', 'VTwinB']))
+
+        def wrapt(c):
+            x = ['cls', c]
+            return {'bare': x, 'optional': ['union', [x], 'O'], 'Tuple': ['tupf', [x, ['cls', 'int']], 'T'],
+                    'List': ['seq', 'List', x], 'Dict': ['map', 'Dict', ['cls', 'str'], x],
+                    'Union': ['union', [x, ['cls', 'int']], 'U']}[w]
+        a, b, c, mode = wrapt(order[0]), wrapt(order[1]), wrapt(order[0]), 'twin'
     nex = 0
     a, n1 = _sanitize(a)
     b, n2 = _sanitize(b)
@@ -205,6 +217,22 @@ def _mentions_typing_any(node):
     found = []
     H._map_children(node, lambda ch: found.append(_mentions_typing_any(ch)) or ch)
     return any(found)
+
+
+def _leaf_ids(h, out):
+    args = getattr(h, '__args__', None)
+    if isinstance(h, type) or not args:
+        out.append(id(h) if isinstance(h, type) else repr(h))
+    else:
+        for x in args:
+            _leaf_ids(x, out)
+    return out
+
+
+def _same_leaf_classes(a, b):
+    """Two hints with equal reprs may still be different hints (same-named classes): the multisets of class
+    identities at their leaves must coincide (member order of equal unions may differ)."""
+    return sorted(map(str, _leaf_ids(a, []))) == sorted(map(str, _leaf_ids(b, [])))
 
 
 def _shape(node):
@@ -251,6 +279,12 @@ def run_case(case):
             hashable = True
         except TypeError:
             hashable = False
+        try:
+            wrapped = t1.hint
+            if wrapped is not h and not (h is None and wrapped is type(None)) and not (wrapped == h and _same_leaf_classes(wrapped, h)):
+                fail('wrapper-wraps-another-hint', 'TypeHint(%s).hint is %r (not the hint it was built from)' % (desc[n], wrapped))
+        except AttributeError:
+            pass
         if hashable and t1 is not t2:
             fail('TypeHint-not-memoised', 'TypeHint(%s) is not TypeHint(same object)' % desc[n])
         try:
